@@ -25,6 +25,7 @@ import os
 
 from mc import core
 from ref import fixedcol as fc
+from ref import isolate
 
 ID = 'C03'
 LEVEL = 'exploration'
@@ -246,7 +247,7 @@ def specs_derived(tier):
 
 GROUPS = [('opt', specs_opt, 48), ('surf', specs_surf, 32), ('wells', specs_wells, 8), ('names', specs_names, 8),
           ('limits', specs_limits, 2), ('layers', specs_layers, 4), ('shipped', specs_shipped, 64),
-          ('derived', specs_derived, 32)]
+          ('derived', specs_derived, 32), ('order', lambda tier: specs_order(tier), 4)]
 
 
 def units(tier):
@@ -632,6 +633,26 @@ def cmp_mem(D, D2, F, coords=True):
                  first_diff(D2['block_connection_name_list'], D['block_connection_name_list'])))
 
 
+def desc_diff(D1, D2):
+    """First part of two descriptions that differs (exact comparison) -> (part, text) or None."""
+    for k in ('header', 'nodes', 'columns', 'connections', 'layers', 'surface', 'wells', 'block_name_list',
+              'block_connection_name_list'):
+        a, b = D1[k], D2[k]
+        if a != b:
+            if isinstance(a, dict):
+                kk = [x for x in a if a[x] != b.get(x)]
+                return 'header.' + kk[0], '%s %r -> %r' % (kk[0], a[kk[0]], b.get(kk[0]))
+            i = next((i for i, (x, y) in enumerate(zip(a, b)) if x != y), min(len(a), len(b)))
+            return k, '%s[%d] %r -> %r' % (k, i, a[i] if i < len(a) else None, b[i] if i < len(b) else None)
+    return None
+
+
+def line_diff(t1, t2):
+    l1, l2 = t1.split('\n'), t2.split('\n')
+    k = next((i for i, (a_, b_) in enumerate(zip(l1, l2)) if a_ != b_), min(len(l1), len(l2)))
+    return 'line %d: %r -> %r' % (k + 1, l1[k] if k < len(l1) else None, l2[k] if k < len(l2) else None)
+
+
 def first_diff(a, b):
     for i, x in enumerate(a):
         if i >= len(b) or b[i] != x:
@@ -728,6 +749,28 @@ def evaluate(spec, tier='thorough'):
         raise
     except Exception as e:
         W.add('raises', 'mulgrid.write raised %s: %s' % (type(e).__name__, e), type(e).__name__)
+    if bytes1 is not None:
+        # write() is an observer: the geometry after it is the geometry before it, and a second write of the
+        # same object gives the same bytes
+        try:
+            changed = desc_diff(D, describe(g))
+            if changed:
+                W.add('geometry-modified-by-write', 'write() changed the geometry it wrote: %s' % changed[1],
+                      '%s,%s' % (changed[0], ucls))
+            else:
+                fb = os.path.join(d, 'c03_1b.dat')
+                with quiet():
+                    g.write(fb)
+                with open(fb, newline='') as fh:
+                    bytes1b = fh.read()
+                os.remove(fb)
+                if bytes1b != bytes1:
+                    W.add('second-write-differs', 'writing the same object twice gives different files: %s'
+                          % line_diff(bytes1, bytes1b), ucls + ',second-call')
+        except core.CaseTimeout:
+            raise
+        except Exception as e:
+            W.add('second-write-raises', 'second write of the same object raised %s: %s' % (type(e).__name__, e), ucls)
     flag_ok = True
     if bytes1 is not None:
         try:
@@ -748,12 +791,15 @@ def evaluate(spec, tier='thorough'):
                 # the flag is not in the file: that the reader cannot find it is an echo of the write finding
                 B.items = [it for it in B.items if '|header.unit_type|' not in it[0]]
             cmp_mem(D, D2, B, coords=comparable)
+            reread_differs = bool(B.items)
+            # what the reference reader already found wrong in the file comes back wrong: same finding
+            B.items = [it for it in B.items if it[0].split('|')[2] not in W.clauses]
             try:
                 with quiet():
                     g2.write(f2)
                 with open(f2, newline='') as fh:
                     bytes2 = fh.read()
-                if bytes2 != bytes1 and not B.items:
+                if bytes2 != bytes1 and not reread_differs:
                     # (when the re-read geometry already differs, a different second file is the same finding)
                     l1, l2 = bytes1.split('\n'), bytes2.split('\n')
                     k = next((i for i, (a_, b_) in enumerate(zip(l1, l2)) if a_ != b_), min(len(l1), len(l2)))
@@ -881,6 +927,104 @@ def as_is_check(spec):
     return F.items, 'shipped-as-is', stats
 
 
+# ------------------------------------------------------------------------------------------ order independence
+
+def order_specs(tier):
+    """The cases whose observation is repeated after other cases and after the primers."""
+    out = specs_limits(tier) + specs_layers(tier)[::6] + specs_wells(tier)[::4] + specs_opt(tier)[::24] + \
+        specs_surf(tier)[::48] + specs_names(tier)[::8] + [{'base': 'g7', 'unit': 'ft', 'atm': 1, 'order': 'none'}]
+    return out if tier == 'thorough' else out[::2]
+
+
+def specs_order(tier):
+    n = 4 if tier == 'thorough' else 2
+    return [{'order_pass': i, 'of': n} for i in range(n)]
+
+
+def observe(spec, tag):
+    """What one case shows: the bytes written and the canonical form of the geometry read back from them."""
+    with quiet():
+        g, excluded = build(spec)
+        if excluded:
+            return None
+        p = os.path.join(core.scratch(), 'c03_o_%s.dat' % tag)
+        g.write(p)
+        with open(p, newline='') as fh:
+            text = fh.read()
+        import mulgrids
+        D = describe(mulgrids.mulgrid(p))
+    return text, D
+
+
+def write_primers():
+    """Legal cases that exercise the width guard of the writers: a geometry and a set of initial conditions whose
+    values are over-wide for their fields and are, by design, written with reduced precision."""
+    import numpy as np
+    import mulgrids
+    import t2incons
+    d = core.scratch()
+    with quiet():
+        for unit in ('', 'FEET '):
+            g = mulgrids.mulgrid().rectangular([100.25, 50.5], [75.75], [10.5, 20.25],
+                                               origin=[12345600.25, -1234567.25, 12345678.25], atmos_type=1)
+            g.add_well(mulgrids.well('PRIME', [np.array([123456789.25, -12345678.25, 12345678.25]),
+                                               np.array([123456789.25, -12345678.25, -1234567.25])]))
+            g.columnlist[0].surface = 12345670.25
+            g.set_column_num_layers(g.columnlist[0])
+            g.unit_type = unit
+            g.write(os.path.join(d, 'c03_primer.dat'))
+            mulgrids.mulgrid(os.path.join(d, 'c03_primer.dat'))
+        inc = t2incons.t2incon()
+        inc['prm 1'] = t2incons.t2blockincon([-1.2345678901234e-101, -2.5e+100, -3.25e5], 'prm 1', porosity=-0.123456789012)
+        inc.timing = {'kcyc': 1, 'iter': 2, 'nm': 3, 'tstart': -1.23456789012e3, 'sumtim': -1.23456789012e-101}
+        inc.write(os.path.join(d, 'c03_primer.incon'), reset=False)
+        t2incons.t2incon(os.path.join(d, 'c03_primer.incon'))
+
+
+def order_pass(spec, tier):
+    """Runs in a forked child.  Pass 1: every case in order.  Pass 2: the same cases in reverse order (each now
+    preceded by different cases), with the previous case's geometry still alive.  Then the primers.  Pass 3: the
+    cases again.  What a case shows must be the same in all three."""
+    cases = order_specs(tier)[spec['order_pass']::spec['of']]
+    out = []
+    with core.timelimit(TIME_LIMIT):
+        first = [observe(c, 'a') for c in cases]
+        second = [observe(c, 'b') for c in reversed(cases)][::-1]
+        write_primers()
+        third = [observe(c, 'c') for c in cases]
+    for c, o1, o2, o3 in zip(cases, first, second, third):
+        for o, after in ((o2, 'other-cases-in-reverse-order'), (o3, 'over-wide-primer')):
+            if o1 is None or o is None:
+                continue
+            if o[0] != o1[0]:
+                out.append((c, 'C03|write|bytes-depend-on-history|after=%s' % after,
+                            'the file written for the same case differs from the first time: %s' % line_diff(o1[0], o[0])))
+            elif o[1] != o1[1]:
+                out.append((c, 'C03|read|geometry-depends-on-history|after=%s' % after,
+                            'the same file is read differently from the first time: %s' % (desc_diff(o1[1], o[1]),)))
+    return len(cases), out
+
+
+def run_order_unit(spec, tier, rec):
+    key = json.dumps(spec, sort_keys=True)
+    try:
+        ncases, found = isolate.isolated(order_pass, spec, tier)
+    except isolate.ChildFailed as e:
+        msg = str(e)
+        if 'CaseTimeout' in msg:
+            rec.violation('C03|order-pass|timeout|pass=%d' % spec['order_pass'], 'order-independence pass did not finish', {'spec': spec, 'tier': tier})
+        else:
+            rec.violation('C03|order-pass|raises|%s' % msg.strip().splitlines()[-1].split(':')[0],
+                          'order-independence pass raised:\n%s' % msg[-1500:], {'spec': spec, 'tier': tier})
+        rec.case(key, outcome='order-pass-failed')
+        return
+    rec.case(key, outcome='order-pass')
+    rec.count('order_pass_cases', ncases)
+    rec.count('order_pass_observations', 3 * ncases)
+    for c, sig, what in found:
+        rec.violation(sig, what, {'spec': c, 'tier': tier, 'order_spec': spec})
+
+
 def run_case(spec, tier):
     with core.timelimit(TIME_LIMIT):
         if spec.get('asis'):
@@ -895,6 +1039,9 @@ def run_unit(unit, tier, rec):
     timeouts = 0
     for spec in specs:
         key = json.dumps(spec, sort_keys=True)
+        if 'order_pass' in spec:
+            run_order_unit(spec, tier, rec)
+            continue
         if timeouts >= MAX_TIMEOUTS_PER_UNIT:
             rec.case(key, nontrivial=False, outcome='skipped-after-%d-timeouts' % MAX_TIMEOUTS_PER_UNIT)
             rec.count('cap_hit', 1)
@@ -905,6 +1052,13 @@ def run_unit(unit, tier, rec):
             timeouts += 1
             viol, outcome, stats = [('C03|round-trip|timeout|%s' % gname, 'case did not finish in %d s' % TIME_LIMIT)], \
                 'timeout', {}
+        except core.HarnessError:
+            raise
+        except Exception as e:
+            # whatever a changed library makes of a case, the case is reported and the unit goes on
+            import traceback
+            viol, outcome, stats = [('C03|round-trip|blow-up|%s,%s' % (gname, type(e).__name__),
+                                     'evaluating the case raised:\n%s' % traceback.format_exc()[-1200:])], 'blow-up', {}
         rec.case(key, nontrivial=not outcome.startswith('excluded'), outcome=outcome)
         for name, n in stats.items():
             rec.count(name, n)
@@ -917,5 +1071,8 @@ def run_unit(unit, tier, rec):
 
 def replay(case):
     spec = case['spec']
+    if 'order_spec' in case:
+        ncases, found = isolate.isolated(order_pass, case['order_spec'], case.get('tier', 'thorough'))
+        return [(sig, what) for c, sig, what in found if c == spec]
     viol, outcome, stats = run_case(spec, case.get('tier', 'thorough'))
     return viol
